@@ -82,6 +82,11 @@ def o4(tier):
             if p.kind == 'panic':
                 ob.require(False, f'O4/{f.short}/panic', p.msg, p); continue
             snaps = [(i, e) for i, e in enumerate(p.trace) if ev_is(e, SNAP)]
+            if f.short == 'process_commit' and snaps:
+                # a commit that is going to be rejected must not leave a snapshot entry behind (it would later be taken for the applied commit)
+                vals = [(i, e) for i, e in enumerate(p.trace) if ev_is(e, 'validate_commit_authorization', 'validate_commit_identities')]
+                ob.require(len(vals) == 2 and all(i < snaps[0][0] and res_ok(ob, p, e) for i, e in vals), f'O4/{f.short}/snapshot-before-validation',
+                           'process_commit records a snapshot for a commit that has not passed authorization and identity validation yet', p)
             for i, e in snaps:
                 if ob.eng.prove(p, e.ret.discriminant() == 1)[0]:
                     ob.require(vname(p.ret) == 'Err' and not [x for x in p.trace[i:] if x.short.split('::')[-1] in MERGES], f'O4/{f.short}/failed-snapshot-continues',
@@ -119,6 +124,8 @@ def o5(tier):
                    f'is_better_candidate({u(a[2])}, {a[3]}, {u(a[4])}, {u(a[5])})', p)
         rb = [e for e in p.trace if ev_is(e, 'EpochSnapshotManager::rollback_to_epoch')]
         better = ob.eng.prove(p, ib[0].ret)[0]
+        if better:
+            ob.require(bool(rb), 'O5/better-without-rollback', 'a better candidate is recognised but no rollback is attempted', p)
         rolled = bool(rb) and ob.eng.prove(p, rb[0].ret.discriminant() == 0)[0]
         names = [e.short.split('::')[-1] for e in p.trace if ev_is(e, *ROLL)]
         if better and rolled:
@@ -189,6 +196,46 @@ def o6(tier):
     return r
 
 
+@guard
+def o7(tier):
+    """process_mls_message: mapping of OpenMLS verdicts to the recovery errors"""
+    ob = Ob('O7', 'process_mls_message: WrongEpoch carries the message epoch; OwnCommitPending only for a Commit that cannot be decrypted as own message while a pending commit exists; '
+                  'group-id mismatch refused before processing', pure=C.PURE_MLS | {'MlsGroup::pending_commit'})
+    f = ob.fn(CORE, 'process::process_mls_message')
+    paths = ob.explore(f, [Opaque('self', '&MDK<Storage>'), Opaque('group', '&mut openmls::group::MlsGroup'), Opaque('bytes', '&[u8]')])
+    ct = ob.prog.cat.discr_values('ContentType', 'openmls::framing')
+    n_own = n_we = 0
+    for p in paths:
+        if p.kind == 'panic':
+            ob.require(False, 'O7/panic', p.msg, p); continue
+        sh = ret_shape(p.ret)
+        pm = [e for e in p.trace if ev_is(e, 'MlsGroup::process_message') or (e.short.endswith('process_message') and 'openmls' in e.fn)]
+        gid_eq = [c for c in p.pc if 'eq(' in str(c) and 'group_id' in str(c)]
+        if sh == ('Err', 'ProtocolGroupIdMismatch'):
+            ob.require(not pm, 'O7/mismatch-processed', 'group id mismatch detected after processing', p)
+        if sh == ('Err', 'OwnCommitPending'):
+            n_own += 1
+            cte = [e for e in p.trace if ev_is(e, 'ProtocolMessage::content_type')]
+            pc_ = [e for e in p.trace if ev_is(e, 'pending_commit')]
+            ok = bool(cte) and bool(pc_) and bool(pm)
+            if ob.require(ok, 'O7/own-commit-shape', 'OwnCommitPending without checking content type and pending commit', p):
+                ob.prove_all(p, [(cte[0].ret.discriminant() == ct['Commit'], 'O7/own-commit-not-commit',
+                                  'an own message that is not a Commit is treated as the pending own commit (its echo would merge the staged commit)'),
+                                 (pc_[0].ret.discriminant() == 1, 'O7/own-commit-no-pending', 'OwnCommitPending although no commit is pending')])
+        if sh == ('Err', 'ProcessMessageWrongEpoch'):
+            n_we += 1
+            ep = [e for e in p.trace if ev_is(e, 'ProtocolMessage::epoch')]
+            v = p.ret.fields[0].fields[0]
+            ob.require(bool(ep) and 'as_u64' in uid_of(ob.eng, p.st, v) and uid_of(ob.eng, p.st, ep[0].ret) in uid_of(ob.eng, p.st, v), 'O7/wrong-epoch-value',
+                       f'WrongEpoch carries {uid_of(ob.eng, p.st, v)}, not the epoch of the message', p)
+        if sh[0] == 'Ok':
+            ob.require(bool(pm) and derived_from(ob.eng, p.st, p.ret.fields[0], pm[-1]), 'O7/ok-source', 'Ok result is not the processed message', p)
+    ob.require(n_own >= 1 and n_we >= 1, 'O7/vacuity', f'own {n_own} wrongepoch {n_we}')
+    ob.r.bounds = {'paths': 'all'}
+    ob.r.vacuity.append(f'{len(paths)} paths; OwnCommitPending {n_own}, WrongEpoch {n_we}')
+    return ob.done(cases=len(paths))
+
+
 def run(tier, seed, only=None):
-    obs = [('O4', o4), ('O5', o5), ('O6', o6)]
+    obs = [('O4', o4), ('O5', o5), ('O6', o6), ('O7', o7)]
     return [f(tier) for k, f in obs if not only or k in only]
